@@ -308,6 +308,85 @@ do_hhead(char **tok, bool isreq)
 	free(d);
 }
 
+// hbody <hex head> <hex body> <c> <len1,len2,...> <f|r>: a response head followed by a body;
+// head + the first c body bytes are written in one segment, the head is read by
+// nni_http_read_res (so those c bytes sit in the connection's read buffer), then ONE read
+// (nng_http_read_all for f, nng_http_read for r) is posted with the given io vector, and the
+// rest of the body is written in one more segment.  Prints what each element received.
+static void
+do_hbody(char **tok)
+{
+	size_t      hl, bl, c = (size_t) strtoull(tok[3], NULL, 10);
+	uint8_t    *h = unhex(tok[1], &hl);
+	uint8_t    *b = unhex(tok[2], &bl);
+	nng_stream *st;
+	nng_http   *conn;
+	nng_aio    *aio;
+	nng_iov     iov[8];
+	uint8_t    *bufs[8];
+	size_t      lens[8];
+	int         nio = 0, fd = tcp_pair(&st), rv;
+	char       *sp  = tok[4];
+
+	while (*sp != 0 && nio < 8) {
+		lens[nio++] = (size_t) strtoull(sp, &sp, 10);
+		if (*sp == ',') sp++;
+	}
+	if (fd < 0) {
+		printf("hbody rv=-1 nopair\n");
+		free(h);
+		free(b);
+		return;
+	}
+	if (c > bl) c = bl;
+	nni_http_init(&conn, st, true);
+	nng_aio_alloc(&aio, NULL, NULL);
+	nng_aio_set_timeout(aio, 3000);
+	nni_http_conn_reset(conn);
+	nni_http_read_res(conn, aio);
+	uint8_t *first = malloc(hl + c + 1);
+	memcpy(first, h, hl);
+	memcpy(first + hl, b, c);
+	raw_write_all(fd, first, hl + c);
+	free(first);
+	nng_aio_wait(aio);
+	rv = nng_aio_result(aio);
+	if (rv != 0) {
+		printf("hbody rv=- head(%d)\n", rv);
+	} else {
+		usleep(20 * gap_us); // everything of the first segment is in the read buffer by now
+		for (int i = 0; i < nio; i++) {
+			bufs[i] = calloc(lens[i] + 1, 1);
+			memset(bufs[i], 0xEE, lens[i]);
+			iov[i].iov_buf = bufs[i];
+			iov[i].iov_len = lens[i];
+		}
+		nng_aio_set_iov(aio, (unsigned) nio, iov);
+		if (tok[5][0] == 'f') {
+			nng_http_read_all(conn, aio);
+		} else {
+			nng_http_read(conn, aio);
+		}
+		usleep(10 * gap_us);
+		if (bl > c) raw_write_all(fd, b + c, bl - c);
+		usleep(2 * gap_us);
+		shutdown(fd, SHUT_WR);
+		nng_aio_wait(aio);
+		printf("hbody rv=%d n=%zu iov=", nng_aio_result(aio), nng_aio_count(aio));
+		for (int i = 0; i < nio; i++) {
+			if (i) printf(",");
+			puthex((char *) bufs[i], lens[i]);
+			free(bufs[i]);
+		}
+		printf("\n");
+	}
+	nng_aio_free(aio);
+	nni_http_conn_fini(conn);
+	close(fd);
+	free(h);
+	free(b);
+}
+
 // --------------------------------------------------------- WebSocket loop
 typedef struct {
 	nng_mtx    *mtx;
@@ -990,6 +1069,8 @@ main(int argc, char **argv)
 			do_head(tok, false);
 		} else if (strcmp(op, "hreq") == 0 && nt >= 3) {
 			do_hhead(tok, true);
+		} else if (strcmp(op, "hbody") == 0 && nt >= 6) {
+			do_hbody(tok);
 		} else if (strcmp(op, "hres") == 0 && nt >= 3) {
 			do_hhead(tok, false);
 		} else if (strcmp(op, "ws") == 0 && nt >= 10) {
